@@ -620,7 +620,12 @@ def sequence_inputs(tier, seed):
                 for k in range(1, n + 1):
                     if n % k == 0:
                         inputs.append(([(e, False) for e in S], k))
-        plan = [(5, (5, 2), 150), (6, (2, 3, 6), 1200), (7, (7,), 50), (8, (2, 4), 1200), (9, (3,), 400), (10, (5, 2), 60), (12, (4, 6), 24)]
+        plan = [(5, (5, 2), 150), (6, (2, 3, 6), 600), (7, (7,), 50), (8, (2, 4), 500), (9, (3,), 150), (10, (5,), 40), (10, (2,), 10)]
+        # all X-type / all Z-type ancilla-data edges (12 each): the only 12-lists cheap enough for the library's recursion
+        for kind in ("X", "Z"):
+            L = [(EI[frozenset((QI[a], QI[d]))], False) for a, ds in sorted(STABILISERS.items()) if a[0] == kind for d in ds]
+            inputs.append((L, 6))
+            inputs.append((L, 4))
     else:
         for S in itertools.combinations(range(NE), 2):
             inputs.append(([(e, False) for e in S], 2))
@@ -628,7 +633,7 @@ def sequence_inputs(tier, seed):
             inputs.append((rand_list(4), 2))
         for _ in range(100):
             inputs.append((rand_list(4), 4))
-        plan = [(3, (3, 2), 60), (5, (5, 2), 20), (6, (2, 3), 150), (8, (2, 4), 110), (9, (3,), 40), (10, (5,), 10)]
+        plan = [(3, (3, 2), 60), (5, (5, 2), 20), (6, (2, 3), 80), (8, (2, 4), 40), (9, (3,), 12), (10, (5,), 10)]
     for n, ks, count in plan:
         for _ in range(count):
             L = rand_list(n)
@@ -778,14 +783,37 @@ def evaluate(args):
     raise SystemExit("unknown replay check %r" % (kind,))
 
 
+def observe(args):
+    """print what the real code returns next to the spec value for the replayed input"""
+    c = ctx()
+    kind = args.get("check")
+    try:
+        if kind in ("accept", "park"):
+            L = names_to_oriented(args["edges"])
+            S = [e for e, _ in L]
+            real = c.Gen.get_mutually_allowed([c.gate(e, f) for e, f in L], c.conn)
+            print("observed get_mutually_allowed = %s ; spec accept = %s (qubit-disjoint=%s, collisions=%s)"
+                  % (bool(real), spec_accept(S), spec_disjoint(S), [[list(EDGE_NAMES[a]), list(EDGE_NAMES[b]), QUBITS[x], QUBITS[y]] for a, b, x, y in spec_collisions(S)]))
+            for q in ([QI[args["qubit"]]] if kind == "park" else []):
+                print("observed get_requires_parking(%s) = %s ; spec park = %s"
+                      % (QUBITS[q], bool(c.get_requires_parking(c.Q[q], [c.edge(e, f) for e, f in L], c.conn)), spec_park(q, S)))
+        elif kind == "sequence":
+            L = names_to_oriented(args["edges"])
+            n, fl, info = check_sequences(L, int(args["subgroup_size"]), deep=10 ** 9)
+            print("observed: %d sequences emitted (spec-valid partitions: %s), %d failing clause instances" % (info["emitted"], info["expected"], len(fl)))
+    except Exception as ex:
+        print("observed: real code raised %r" % (ex,))
+
+
 def replay(path):
     rec, args = common.load_replay(path)
     common.clear_caches()
-    key = rec.get("key") or (rec.get("failure") or {}).get("key")
+    key = rec.get("key") or rec.get("id") or rec.get("obligation") or (rec.get("failure") or {}).get("key")
     if isinstance(rec.get("failure"), dict) and not rec.get("replay_args"):
         args = rec["failure"].get("replay_args") or rec["failure"].get("witness")
     fails = evaluate(args)
     print("replay input:", json.dumps(args))
+    observe(args)
     if not fails:
         print("clause holds on the current tree (recorded key: %s)" % key)
         return 0
